@@ -60,12 +60,25 @@ func accessAll(p gopacket.Packet, variant int, report func(acc, site, msg string
 			})
 			call("NetworkLayer", func() {
 				if l := p.NetworkLayer(); l != nil {
-					call("NetworkFlow", func() { f := l.NetworkFlow(); _ = f.String(); _ = f.FastHash(); _ = f.Reverse() })
+					call("NetworkFlow", func() {
+						f := l.NetworkFlow()
+						_ = f.String()
+						_ = f.FastHash()
+						_ = f.Reverse()
+						a, b := f.Endpoints()
+						_, _ = a.String(), b.String()
+					})
 				}
 			})
 			call("TransportLayer", func() {
 				if l := p.TransportLayer(); l != nil {
-					call("TransportFlow", func() { f := l.TransportFlow(); _ = f.String(); _ = f.FastHash() })
+					call("TransportFlow", func() {
+						f := l.TransportFlow()
+						_ = f.String()
+						_ = f.FastHash()
+						a, b := f.Endpoints()
+						_, _ = a.String(), b.String()
+					})
 				}
 			})
 			call("ApplicationLayer", func() {
